@@ -52,7 +52,7 @@ func init() {
 			}
 			return 16
 		},
-		Rule: fmt.Sprintf("vote lists: a validator set of n fresh keys (+3 foreign keys); a subset S of validators signs the exact precommit (|S| biased to floor(2n/3), floor(2n/3)+1, n), then 0..2 items are added or substituted from: duplicated signer (same or other timestamp), non-validator, signature over another block id / round / part-set hash / part-set count word / height / prevote type / timestamp, bit-flipped signature, flipped V, V>=8, r=0, 64-byte, empty and 63-byte signature; list bytes encoded by the harness, decoded by goloop. Entry 1 (n in 1..10, %d lists per case): CommitVoteList.VerifyBlock against a real validator list. Entry 2 (n in 1..5, %d imports per two-node chain): an honest height-2 block whose body votes, header votes-hash and timestamp are replaced, through BlockManager.Import of a follower node. Entry 3 (n in 1..5, one list per chain): consensus.ReceiveBlockResult of a started follower with a custom BlockResult (Consume vs Reject). Model: accept iff every item recovers (decred, harness-serialized precommit) to a distinct member and 3*items > 2*n; for entry 3 (which tallies through the vote set) only the core is demanded: Consume needs > 2/3 distinct valid member precommits, a clean certificate must be consumed. Non-trivial = distinct list that has at least one bad item or sits on the threshold boundary.", listsPerCase, importsPerWorld),
+		Rule: fmt.Sprintf("vote lists: a validator set of n fresh keys (+3 foreign keys); a subset S of validators signs the exact precommit (|S| biased to floor(2n/3), floor(2n/3)+1, n), then 0..2 items are added or substituted from: duplicated signer (same or other timestamp), non-validator, signature over another block id / round / part-set hash / part-set count word / height / prevote type / timestamp, bit-flipped signature, flipped V, V>=8, r=0, 64-byte, empty and 63-byte signature; list bytes encoded by the harness, decoded by goloop. Entry 1 (n in 1..10, %d lists per case): CommitVoteList.VerifyBlock against a real validator list. Entry 2 (n in 1..5, %d imports per two-node chain): an honest height-2 block whose body votes, header votes-hash and timestamp are replaced, through BlockManager.Import of a follower node. Entry 3 (one list per chain, four modes in rotation): consensus.ReceiveBlockResult of a started follower with a custom BlockResult (Consume vs Reject): (a) clean certificate, n in 1..5; (b) the general list generator, n in 1..5; (c) n in 3..6, an UNDER-quorum set of distinct signers padded with re-timestamped valid precommits of signers already present (duplicate last / first / interleaved / shuffled) until the item count exceeds 2n/3; (d) n in 3..6, precommits of an under-quorum set delivered through OnReceive first, then a list of re-timestamped precommits of the same signers. Model: accept iff every item recovers (decred, harness-serialized precommit) to a distinct member and 3*items > 2*n; for entry 3 (which tallies through the vote set) only the core is demanded: Consume needs > 2/3 distinct valid member precommits, a clean certificate must be consumed. Non-trivial = distinct list that has at least one bad item or sits on the threshold boundary.", listsPerCase, importsPerWorld),
 		MinNonTrivial: func(t string) int {
 			if t == ev.Thorough {
 				return 20000
@@ -60,7 +60,7 @@ func init() {
 			return 700
 		},
 		Required: []string{"accept_agreed", "reject_agreed", "reject_too_few", "reject_duplicate", "reject_non_member", "reject_unrecoverable", "boundary_at_floor", "boundary_at_floor_plus_1", "threshold_reached_only_by_duplicate", "decode_rejected", "valid_item_reference_recovers_signer",
-			"import_accept_agreed", "import_reject_agreed", "blockresult_consume_agreed", "blockresult_reject_agreed"},
+			"import_accept_agreed", "import_reject_agreed", "blockresult_consume_agreed", "blockresult_reject_agreed", "blockresult_underquorum_padded_with_duplicates", "blockresult_dup_last", "blockresult_predelivered_votes"},
 		Assumptions: []string{
 			"decred secp256k1 recovery called directly is the reference for an item's signer",
 			"a precommit signs sha3-256 of RLP[height, round, type=1, blockID, [countWord, partSetHash] | null, timestamp] (harness encoder lib/sig/rlp.go; validated by the positive cases of all three entry points)",
@@ -353,8 +353,15 @@ func genList(r *rand.Rand, n int, vals, foreign []*sig.Key, index map[[20]byte]i
 	if r.Intn(2) == 0 {
 		r.Shuffle(len(g.items), func(i, j int) { g.items[i], g.items[j] = g.items[j], g.items[i] })
 	}
-	// ---- model
+	g.judge(index, t)
+	return g
+}
+
+// judge applies the statement to the items of g.
+func (g *gen) judge(index map[[20]byte]int, t target) {
+	n := g.n
 	g.wantVoted = make([]bool, n)
+	g.reason, g.distinctValid = "", 0
 	for _, it := range g.items {
 		a, ok := sig.RefRecoverRSV(it.sig, voteHash(t, it.ts))
 		if it.kind == "good" {
@@ -388,7 +395,6 @@ func genList(r *rand.Rand, n int, vals, foreign []*sig.Key, index map[[20]byte]i
 		g.reason = "too_few"
 	}
 	g.want = g.reason == ""
-	return g
 }
 
 func run(c *ev.Ctx) {
@@ -401,7 +407,7 @@ func run(c *ev.Ctx) {
 		case ci < e1+im:
 			runImport(c, r, 1+r.Intn(5), importsPerWorld)
 		default:
-			runBlockResult(c, r, 1+r.Intn(5))
+			runBlockResult(c, r, (ci-e1-im)%4)
 		}
 	})
 }
